@@ -93,9 +93,7 @@ theorem LInv.csCore {s : St} (hs : LInv s) (e0 : Nat) (p0 : Unit) (b_0 : e0 < s.
   · intro x hx
     simp only [List.mem_cons, List.not_mem_nil, or_false] at hx ⊢
     rcases hx with h | h <;> subst h <;> simp [*]
-  · intro x hx
-    
-    exact absurd hx (by simp)
+  · intro x hx; exact absurd hx (by simp)
   · intro i hi hT
     simp only [List.mem_cons, List.not_mem_nil, or_false, not_or] at hT
     have hin : ∀ k, i ≠ s.nE + k := by intro k; omega
